@@ -13,3 +13,6 @@ package utils
 //@   trusted
 //@   modifies nothing
 //@   ensures len(b) == len(s) && sameSlice(b, s, 0, len(s))
+//@ func InitQUICSrkFromIfaceMac() (k [32]byte, i net.Interface, err error)
+//@   trusted
+//@   modifies nothing
